@@ -22,12 +22,18 @@ Proof.
   - destruct (IH _ H) as [E L]. split; [f_equal; exact E | f_equal; exact L].
 Qed.
 
+Local Opaque mutez_bound.
+
+Section WithEnv.
+Variable e : env.
+Hypothesis He : env_okb e = true.
+
 Lemma protect_all pre vis : protect (length vis) (mkst pre vis) = Some (mkst (pre ++ vis) []).
 Proof. pose proof (protect_mkst pre vis [] _ eq_refl) as H. rewrite app_nil_r in H. exact H. Qed.
 
 Lemma shuffle_refines f i pre vis :
   is_shuffle i = true -> (shuffle i vis <> None \/ pre = []) ->
-  py_eval (S f) i (mkst pre vis) =
+  py_eval e (S f) i (mkst pre vis) =
     match shuffle i vis with Some v' => PDone (mkst pre v') | None => PError end.
 Proof.
   intros Hs Hr. destruct i; try discriminate Hs; cbn [py_eval shuffle].
@@ -100,13 +106,19 @@ Definition is_lt (c : comparison) : bool := match c with Lt => true | _ => false
 Lemma compare_agree a : forall t b, typed a t -> typed b t -> comparable t = true ->
   exists c, v_compare (erase a) (erase b) = Some c /\ py_eq a b = is_eq c /\ py_lt a b = is_lt c.
 Proof.
-  induction a as [z|z|s|s|b0| |x y IHx IHy|t0|x IHx|x t0 IHx|t0 x IHx|t0 l IHl] using pval_ind';
+  induction a as [z|z|z|z|s|s|s|s|b0| |x y IHx IHy|t0|x IHx|x t0 IHx|t0 x IHx|t0 l IHl] using pval_ind';
     intros t b Ha Hb Hc; pose proof Ha as Ha'; unfold typed in Ha'; destruct t; simpl in Ha'; try discriminate Ha';
     simpl in Hc; try discriminate Hc.
   - apply typed_int_inv in Hb as [w ->]. simpl. exists (Z.compare z w). split; [reflexivity|].
     destruct (Z.compare_spec z w); split; try (apply Z.eqb_eq; assumption); try (apply Z.eqb_neq; lia);
       try (apply Z.ltb_lt; lia); try (apply Z.ltb_ge; lia).
   - apply typed_nat_inv in Hb as (w & -> & _). simpl. exists (Z.compare z w). split; [reflexivity|].
+    destruct (Z.compare_spec z w); split; try (apply Z.eqb_eq; assumption); try (apply Z.eqb_neq; lia);
+      try (apply Z.ltb_lt; lia); try (apply Z.ltb_ge; lia).
+  - apply typed_mutez_inv in Hb as (w & -> & _). simpl. exists (Z.compare z w). split; [reflexivity|].
+    destruct (Z.compare_spec z w); split; try (apply Z.eqb_eq; assumption); try (apply Z.eqb_neq; lia);
+      try (apply Z.ltb_lt; lia); try (apply Z.ltb_ge; lia).
+  - apply typed_timestamp_inv in Hb as [w ->]. simpl. exists (Z.compare z w). split; [reflexivity|].
     destruct (Z.compare_spec z w); split; try (apply Z.eqb_eq; assumption); try (apply Z.eqb_neq; lia);
       try (apply Z.ltb_lt; lia); try (apply Z.ltb_ge; lia).
   - apply typed_string_inv in Hb as [w ->]. simpl. exists (bytes_cmp s w). split; [reflexivity|].
@@ -315,6 +327,8 @@ Ltac inv_ty :=
          | H : typed _ TInt |- _ => apply typed_int_inv in H as [? ->]
          | H : typed _ TNat |- _ => apply typed_nat_inv in H as (? & -> & ?)
          | H : typed _ TString |- _ => apply typed_string_inv in H as [? ->]
+         | H : typed _ TMutez |- _ => apply typed_mutez_inv in H as (? & -> & ?)
+         | H : typed _ TTimestamp |- _ => apply typed_timestamp_inv in H as [? ->]
          | H : typed _ TBytes |- _ => apply typed_bytes_inv in H as [? ->]
          | H : typed _ TBool |- _ => apply typed_bool_inv in H as [? ->]
          | H : typed _ (TPair _ _) |- _ => apply typed_pair_inv in H as (? & ? & -> & ? & ?)
@@ -343,13 +357,28 @@ Proof. intros H. unfold nat_from. destruct (z <? 0)%Z eqn:E; [apply Z.ltb_lt in 
 Lemma typed_nat_intro z : (0 <= z)%Z -> typed (PNat z) TNat.
 Proof. intros H. unfold typed. simpl. apply Z.leb_le. assumption. Qed.
 
+Lemma mutez_from_ok z : (0 <= z < mutez_bound)%Z -> mutez_from z = Some (PMutez z).
+Proof.
+  intros [H1 H2]. unfold mutez_from. destruct (z <? 0)%Z eqn:E; [apply Z.ltb_lt in E; lia|].
+  destruct (z <? mutez_bound)%Z eqn:E2; [reflexivity | apply Z.ltb_ge in E2; lia].
+Qed.
+
+Lemma typed_mutez_intro z : (0 <= z < mutez_bound)%Z -> typed (PMutez z) TMutez.
+Proof. intros [H1 H2]. unfold typed. simpl. apply andb_true_intro. split; [apply Z.leb_le | apply Z.ltb_lt]; assumption. Qed.
+
+Lemma env_facts : (0 <= e_amount e < mutez_bound /\ 0 <= e_balance e < mutez_bound /\ 0 <= e_level e)%Z.
+Proof.
+  pose proof He as H. unfold env_okb in H. repeat (apply andb_prop in H as [H ?]).
+  repeat split; try (apply Z.leb_le; assumption); try (apply Z.ltb_lt; assumption).
+Qed.
+
 Lemma zcmp_agree i z : py_zcmp i z = zcmp i z.
 Proof. destruct i; simpl; try reflexivity; try apply Z.gtb_ltb; apply Z.geb_leb. Qed.
 
 Lemma simple_agree i k fn s s1 vis :
-  py_simple i = Some (k, fn) -> tc_simple i s = Some s1 -> styped vis s ->
+  py_simple e i = Some (k, fn) -> tc_simple i s = Some s1 -> styped vis s ->
   exists args rest, vis = args ++ rest /\ length args = k /\
-    match ref_simple i (map erase vis) with
+    match ref_simple e i (map erase vis) with
     | Done r => exists outs, fn args = POk outs /\ map erase (outs ++ rest) = r /\ styped (outs ++ rest) s1
     | RtError => fn args = PErr
     | _ => False
@@ -410,10 +439,10 @@ Proof.
     eexists; split; [reflexivity | split; [reflexivity | constructor; assumption]].
   - (* UPDATE k *)
     destruct s as [|tx [|[] r]]; try discriminate. destruct (ty_update_n k0 tx (TPair a b)) as [t'|] eqn:Eg; [|discriminate].
-    injection Htc as <-. inversion Hs as [|e ? rest0 ? He Hr0]; subst. inversion Hr0 as [|v ? rest ? Hv Hr]; subst.
-    destruct (update_n_agree k0 _ _ _ _ _ Eg He Hv) as (w & E1 & T & R).
+    injection Htc as <-. inversion Hs as [|el ? rest0 ? Hel Hr0]; subst. inversion Hr0 as [|v ? rest ? Hv Hr]; subst.
+    destruct (update_n_agree k0 _ _ _ _ _ Eg Hel Hv) as (w & E1 & T & R).
     apply typed_pair_inv in Hv as Hv'. destruct Hv' as (x & y & -> & _ & _).
-    exists [e; PPair x y], rest. split; [reflexivity | split; [reflexivity|]].
+    exists [el; PPair x y], rest. split; [reflexivity | split; [reflexivity|]].
     cbn [ref_simple map]. rewrite R, (py_update_comb_structural _ _ _ _ E1).
     eexists; split; [reflexivity | split; [reflexivity | constructor; assumption]].
   - (* LEFT *) tc_cases Htc. injection Htc as <-. inv_f2. give_args. simpl. finish.
@@ -430,14 +459,27 @@ Proof.
     apply typed_list_intro. constructor; assumption.
   - (* SIZE *) tc_cases Htc; injection Htc as <-; inv_f2; inv_ty; give_args; simpl;
       (eexists; split; [reflexivity | split; [simpl; rewrite ?map_length; reflexivity | constructor; [apply typed_nat_intro; lia | assumption]]]).
-  - (* ADD *) unfold add_ty in Htc. tc_cases Htc; injection Htc as <-; inv_f2; inv_ty; give_args; simpl;
-      unfold py_arith; simpl; (rewrite ?nat_from_ok by lia);
-      (eexists; split; [reflexivity | split; [reflexivity | constructor; [try (apply typed_nat_intro; lia); reflexivity | assumption]]]).
+  - (* ADD *) unfold add_ty in Htc. tc_cases Htc; injection Htc as <-; inv_f2; inv_ty; give_args; simpl; unfold py_arith; simpl;
+      try ((rewrite ?nat_from_ok by lia);
+           solve [eexists; split; [reflexivity | split; [reflexivity | constructor; [try (apply typed_nat_intro; lia); reflexivity | assumption]]]]).
+    (* mutez + mutez: bounded *)
+    unfold mutez_result, mutez_from.
+    match goal with |- context [(?z <? 0)%Z] => replace (z <? 0)%Z with false by (symmetry; apply Z.ltb_ge; lia) end.
+    match goal with |- context [(?z <? mutez_bound)%Z] => destruct (z <? mutez_bound)%Z eqn:Eov end; [|reflexivity].
+    apply Z.ltb_lt in Eov.
+    eexists; split; [reflexivity | split; [reflexivity | constructor; [apply typed_mutez_intro; lia | assumption]]].
   - (* SUB *) destruct s as [|a [|b r]]; try discriminate Htc. destruct a, b; try discriminate Htc; injection Htc as <-; inv_f2; inv_ty; give_args; simpl;
+      unfold py_arith; simpl;
       (eexists; split; [reflexivity | split; [reflexivity | constructor; [reflexivity | assumption]]]).
-  - (* MUL *) unfold add_ty in Htc. tc_cases Htc; injection Htc as <-; inv_f2; inv_ty; give_args; simpl;
-      unfold py_arith; simpl; (rewrite ?nat_from_ok by nia);
-      (eexists; split; [reflexivity | split; [reflexivity | constructor; [try (apply typed_nat_intro; nia); reflexivity | assumption]]]).
+  - (* MUL *) unfold mul_ty in Htc. tc_cases Htc; injection Htc as <-; inv_f2; inv_ty; give_args; simpl; unfold py_arith; simpl;
+      try ((rewrite ?nat_from_ok by nia);
+           solve [eexists; split; [reflexivity | split; [reflexivity | constructor; [try (apply typed_nat_intro; nia); reflexivity | assumption]]]]).
+    (* mutez * nat, nat * mutez *)
+    all: unfold mutez_result, mutez_from;
+      match goal with |- context [(?z <? 0)%Z] => replace (z <? 0)%Z with false by (symmetry; apply Z.ltb_ge; apply Z.mul_nonneg_nonneg; lia) end;
+      match goal with |- context [(?z <? mutez_bound)%Z] => destruct (z <? mutez_bound)%Z eqn:Eov end; [|reflexivity];
+      apply Z.ltb_lt in Eov;
+      (eexists; split; [reflexivity | split; [reflexivity | constructor; [apply typed_mutez_intro; split; [apply Z.mul_nonneg_nonneg; lia | assumption] | assumption]]]).
   - (* NEG *) destruct s as [|a r]; try discriminate Htc. destruct a; try discriminate Htc; injection Htc as <-; inv_f2; inv_ty; give_args; simpl;
       (eexists; split; [reflexivity | split; [reflexivity | constructor; [reflexivity | assumption]]]).
   - (* ABS *) tc_cases Htc. injection Htc as <-. inv_f2. inv_ty. give_args. simpl.
@@ -451,16 +493,41 @@ Proof.
   - (* INT *) tc_cases Htc. injection Htc as <-. inv_f2. inv_ty. give_args. simpl.
     eexists; split; [reflexivity | split; [reflexivity | constructor; [reflexivity | assumption]]].
   - (* EDIV *) unfold ediv_ty in Htc. tc_cases Htc; injection Htc as <-; inv_f2; inv_ty; give_args; simpl;
-      unfold py_ediv, ref_ediv; simpl;
+      unfold py_ediv, ref_ediv, ref_ediv_mutez_nat, ref_ediv_mutez_mutez; simpl;
       match goal with |- context [(?y =? 0)%Z] => destruct (y =? 0)%Z eqn:E end;
       try (eexists; split; [reflexivity | split; [reflexivity | constructor; [reflexivity | assumption]]]);
       apply Z.eqb_neq in E;
       match goal with |- context [(?x / ?y)%Z] => destruct (ediv_agree x y E) as (Hq & Hr & Hpos) end;
-      rewrite Hq, Hr; rewrite ?nat_from_ok; try assumption;
-      try (eexists; split; [reflexivity | split; [reflexivity | constructor; [solve_typed | assumption]]]).
-    (* nat / nat: the quotient is a natural number *)
-    all: try (apply euclid_q_nonneg; lia).
-    all: try (apply andb_true_intro; split; apply Z.leb_le; [apply euclid_q_nonneg; lia | assumption]).
+      rewrite Hq, Hr;
+      match goal with |- context [euclid_q ?x ?y] =>
+        assert (Hqb : (0 <= x -> 0 < y -> 0 <= euclid_q x y <= x)%Z) by (intros; split; [apply euclid_q_nonneg | apply euclid_q_le]; assumption);
+        assert (Hrb : (0 <= x -> 0 < y -> euclid_r x y <= x)%Z) by (intros; apply euclid_r_le; assumption) end;
+      unfold from_kind; rewrite ?nat_from_ok by (try assumption; apply Hqb; lia);
+      rewrite ?mutez_from_ok by (split; [try assumption; apply Hqb; lia | try (specialize (Hqb ltac:(lia) ltac:(lia))); try (specialize (Hrb ltac:(lia) ltac:(lia))); lia]);
+      (eexists; split; [reflexivity | split; [reflexivity | constructor; [| assumption]]]);
+      unfold typed; simpl; rewrite ?andb_true_r;
+      repeat (apply andb_true_intro; split); try (apply Z.leb_le); try (apply Z.ltb_lt);
+      try assumption; try (apply Hqb; lia); try (specialize (Hqb ltac:(lia) ltac:(lia)); lia); try (specialize (Hrb ltac:(lia) ltac:(lia)); lia); try reflexivity.
+  - (* SUB_MUTEZ *) tc_cases Htc. injection Htc as <-. inv_f2. inv_ty. give_args. simpl.
+    rewrite Z.geb_leb.
+    match goal with |- context [(?b <=? ?a)%Z] => match goal with |- context [(0 <=? a - b)%Z] =>
+      destruct (b <=? a)%Z eqn:E;
+        [apply Z.leb_le in E; replace (0 <=? a - b)%Z with true by (symmetry; apply Z.leb_le; lia)
+        |apply Z.leb_gt in E; replace (0 <=? a - b)%Z with false by (symmetry; apply Z.leb_gt; lia)] end end.
+    + rewrite mutez_from_ok by lia.
+      eexists; split; [reflexivity | split; [reflexivity | constructor; [apply (typed_mutez_intro); lia | assumption]]].
+    + eexists; split; [reflexivity | split; [reflexivity | constructor; [reflexivity | assumption]]].
+  - (* AMOUNT *) injection Htc as <-. give_args. simpl. destruct env_facts as (Ha & Hb & Hl). rewrite mutez_from_ok by assumption.
+    eexists; split; [reflexivity | split; [reflexivity | constructor; [apply typed_mutez_intro; assumption | assumption]]].
+  - (* BALANCE *) injection Htc as <-. give_args. simpl. destruct env_facts as (Ha & Hb & Hl). rewrite mutez_from_ok by assumption.
+    eexists; split; [reflexivity | split; [reflexivity | constructor; [apply typed_mutez_intro; assumption | assumption]]].
+  - (* SENDER *) injection Htc as <-. give_args. simpl. finish.
+  - (* SOURCE *) injection Htc as <-. give_args. simpl. finish.
+  - (* SELF_ADDRESS *) injection Htc as <-. give_args. simpl. finish.
+  - (* NOW *) injection Htc as <-. give_args. simpl. finish.
+  - (* LEVEL *) injection Htc as <-. give_args. simpl. destruct env_facts as (Ha & Hb & Hl). rewrite nat_from_ok by assumption.
+    eexists; split; [reflexivity | split; [reflexivity | constructor; [apply typed_nat_intro; assumption | assumption]]].
+  - (* CHAIN_ID *) injection Htc as <-. give_args. simpl. finish.
   - (* COMPARE *) tc_cases Htc. injection Htc as <-. apply andb_prop in Heqb as [Hty Hcmp]. apply ty_eqb_eq in Hty. subst.
     inv_f2. give_args. simpl.
     match goal with Ha : typed ?a ?t, Hb : typed ?b ?t |- _ =>
@@ -567,30 +634,30 @@ Proof.
   apply typed_bytes_inv in Hx as [s ->]. destruct IH as (t & E1 & E2). simpl. rewrite E1, E2. simpl. eauto.
 Qed.
 
-Lemma py_simple_none_tc i s : py_simple i = None -> is_shuffle i = false -> i <> I_CONCAT -> tc_simple i s = None.
+Lemma py_simple_none_tc i s : py_simple e i = None -> is_shuffle i = false -> i <> I_CONCAT -> tc_simple i s = None.
 Proof. destruct i; simpl; intros; try discriminate; try reflexivity. congruence. Qed.
 
 Lemma sim_simple i s R pre vis :
   option_map Typed (tc_simple i s) = Some R -> styped vis s -> is_shuffle i = false -> i <> I_CONCAT ->
-  sim_rel R pre (ref_simple i (map erase vis))
-          (match py_simple i with Some (k, fn) => py_exec_simple k fn (mkst pre vis) | None => PError end).
+  sim_rel R pre (ref_simple e i (map erase vis))
+          (match py_simple e i with Some (k, fn) => py_exec_simple k fn (mkst pre vis) | None => PError end).
 Proof.
   intros Htc Hs Hsh Hc. destruct (tc_simple i s) as [s1|] eqn:E; [|discriminate]. injection Htc as <-.
-  destruct (py_simple i) as [[k fn]|] eqn:Hpy; [|rewrite py_simple_none_tc in E by assumption; discriminate].
+  destruct (py_simple e i) as [[k fn]|] eqn:Hpy; [|rewrite py_simple_none_tc in E by assumption; discriminate].
   destruct (simple_agree i k fn s s1 vis Hpy E Hs) as (args & rest & -> & L & H).
   unfold py_exec_simple. rewrite (pop_mkst pre args rest k L).
-  destruct (ref_simple i (map erase (args ++ rest))); try contradiction.
+  destruct (ref_simple e i (map erase (args ++ rest))); try contradiction.
   - destruct H as (outs & -> & M & T). unfold push_all. rewrite push_all_mkst. simpl. eauto.
   - rewrite H. reflexivity.
 Qed.
 
 Lemma sim_shuffle f i s R pre vis :
   is_shuffle i = true -> option_map Typed (tc_simple i s) = Some R -> styped vis s ->
-  sim_rel R pre (ref_simple i (map erase vis)) (py_eval (S f) i (mkst pre vis)).
+  sim_rel R pre (ref_simple e i (map erase vis)) (py_eval e (S f) i (mkst pre vis)).
 Proof.
   intros Hsh Htc Hs.
   assert (Et : tc_simple i s = shuffle i s) by (destruct i; try discriminate Hsh; reflexivity).
-  assert (Er : forall v, ref_simple i v = match shuffle i v with Some s' => Done s' | None => Stuck end)
+  assert (Er : forall v, ref_simple e i v = match shuffle i v with Some s' => Done s' | None => Stuck end)
     by (destruct i; try discriminate Hsh; reflexivity).
   rewrite Et in Htc. rewrite Er, shuffle_map.
   pose proof (shuffle_Forall2 typed i vis s Hs) as H.
@@ -620,20 +687,20 @@ Section Sim.
   (* induction hypothesis on the fuel *)
   Hypothesis IH : forall c s R pre vis,
     typecheck_gen true c s = Some R -> styped vis s ->
-    sim_rel R pre (ref_eval f c (map erase vis)) (py_eval f c (mkst pre vis)).
+    sim_rel R pre (ref_eval e f c (map erase vis)) (py_eval e f c (mkst pre vis)).
 
   Lemma iter_sim c a r Rc pre : typecheck_gen true c (a :: r) = Some Rc -> (Rc = Typed r \/ Rc = Failing) ->
     forall l rest, Forall (fun x => typed x a) l -> styped rest r ->
-    sim_rel (Typed r) pre (ref_iter (ref_eval f c) (map erase l) (map erase rest))
-            (py_iter (py_eval f c) l (mkst pre rest)).
+    sim_rel (Typed r) pre (ref_iter (ref_eval e f c) (map erase l) (map erase rest))
+            (py_iter (py_eval e f c) l (mkst pre rest)).
   Proof.
     intros Hc HR. induction l as [|x l IHl]; intros rest Hl Hrest; simpl.
     - eauto.
     - inversion Hl as [|? ? Hx Hl']; subst. rewrite push_mkst.
       assert (Hs : styped (x :: rest) (a :: r)) by (constructor; assumption).
       pose proof (IH c _ _ pre _ Hc Hs) as H. simpl in H.
-      apply (sim_bind Rc (Typed r) pre _ _ (fun s1 => ref_iter (ref_eval f c) (map erase l) s1)
-                      (fun st => py_iter (py_eval f c) l st) H).
+      apply (sim_bind Rc (Typed r) pre _ _ (fun s1 => ref_iter (ref_eval e f c) (map erase l) s1)
+                      (fun st => py_iter (py_eval e f c) l st) H).
       intros s1 vis' E Hv. destruct HR as [-> | ->]; [|discriminate]. injection E as <-. apply IHl; assumption.
   Qed.
 
@@ -649,17 +716,17 @@ Section Sim.
 
   Lemma map_sim c a b r pre : typecheck_gen true c (a :: r) = Some (Typed (b :: r)) ->
     forall l rest, Forall (fun x => typed x a) l -> styped rest r ->
-    map_rel b r pre (ref_map (ref_eval f c) (map erase l) (map erase rest)) (py_map (py_eval f c) l (mkst pre rest)).
+    map_rel b r pre (ref_map (ref_eval e f c) (map erase l) (map erase rest)) (py_map (py_eval e f c) l (mkst pre rest)).
   Proof.
     intros Hc. induction l as [|x l IHl]; intros rest Hl Hrest; simpl.
     - exists [], rest. repeat split; auto.
     - inversion Hl as [|? ? Hx Hl']; subst. rewrite push_mkst.
       assert (Hs : styped (x :: rest) (a :: r)) by (constructor; assumption).
       pose proof (IH c _ _ pre _ Hc Hs) as H. simpl in H.
-      destruct (ref_eval f c (erase x :: map erase rest)) as [s1|v| | |]; simpl in H |- *.
+      destruct (ref_eval e f c (erase x :: map erase rest)) as [s1|v| | |]; simpl in H |- *.
       + destruct H as (vis' & -> & <- & T). inversion T as [|y ? vis'' ? Hy T']; subst. simpl. rewrite pop1_mkst.
         specialize (IHl vis'' Hl' T').
-        destruct (ref_map (ref_eval f c) (map erase l) (map erase vis'')) as [ys s2|o]; simpl in IHl |- *.
+        destruct (ref_map (ref_eval e f c) (map erase l) (map erase vis'')) as [ys s2|o]; simpl in IHl |- *.
         * destruct IHl as (pys & rest' & -> & <- & <- & Tp & Tr). exists (y :: pys), rest'. repeat split; auto.
         * destruct o; try contradiction; [destruct IHl as (pv & -> & <-); eauto | rewrite IHl; reflexivity | rewrite IHl; reflexivity].
       + destruct H as (pv & -> & <-). eauto.
@@ -670,7 +737,7 @@ Section Sim.
 
   Lemma sim_step c s R pre vis :
     typecheck_gen true c s = Some R -> styped vis s ->
-    sim_rel R pre (ref_eval (S f) c (map erase vis)) (py_eval (S f) c (mkst pre vis)).
+    sim_rel R pre (ref_eval e (S f) c (map erase vis)) (py_eval e (S f) c (mkst pre vis)).
   Proof.
     intros Htc Hs.
     destruct c; cbn [typecheck_gen] in Htc; cbn [ref_eval];
@@ -680,9 +747,9 @@ Section Sim.
     - (* NOOP *) injection Htc as <-. simpl. eauto.
     - (* SEQ *)
       destruct (typecheck_gen true c1 s) as [[s1|]|] eqn:E1; try discriminate.
-      + apply (sim_bind (Typed s1) R pre _ _ (fun r => ref_eval f c2 r) (fun st => py_eval f c2 st) (IH _ _ _ pre _ E1 Hs)).
+      + apply (sim_bind (Typed s1) R pre _ _ (fun r => ref_eval e f c2 r) (fun st => py_eval e f c2 st) (IH _ _ _ pre _ E1 Hs)).
         intros s1' vis' E Hv. injection E as <-. eapply IH; eassumption.
-      + apply (sim_bind Failing R pre _ _ (fun r => ref_eval f c2 r) (fun st => py_eval f c2 st) (IH _ _ _ pre _ E1 Hs)).
+      + apply (sim_bind Failing R pre _ _ (fun r => ref_eval e f c2 r) (fun st => py_eval e f c2 st) (IH _ _ _ pre _ E1 Hs)).
         intros s1' vis' E. discriminate.
     - (* DIP *)
       destruct (n <=? length s) eqn:En; [|discriminate]. apply Nat.leb_le in En.
@@ -694,7 +761,7 @@ Section Sim.
       destruct (split_at_app (map erase a) (map erase b) (length a)) as [Esk Efi]; [apply map_length|].
       rewrite Esk, Efi.
       pose proof (IH c _ _ (pre ++ a) b Ec Tb) as H.
-      destruct (ref_eval f c (map erase b)) as [r0|v| | |]; simpl in H |- *.
+      destruct (ref_eval e f c (map erase b)) as [r0|v| | |]; simpl in H |- *.
       + destruct H as (vis' & -> & <- & T). rewrite restore_mkst.
         exists (a ++ vis'). rewrite map_app. repeat split; auto. apply Forall2_app; assumption.
       + destruct H as (pv & -> & <-). eauto.
@@ -743,7 +810,7 @@ Section Sim.
         apply sty_eqb_eq in Q. subst s1. cbn [typecheck_gen]. rewrite E, sty_eqb_refl. assumption. }
       destruct b.
       + destruct (typecheck_gen true c r) as [Rc|] eqn:Ec; [|discriminate].
-        apply (sim_bind Rc R pre _ _ (fun s1 => ref_eval f (I_LOOP c) s1) (fun st => py_eval f (I_LOOP c) st)
+        apply (sim_bind Rc R pre _ _ (fun s1 => ref_eval e f (I_LOOP c) s1) (fun st => py_eval e f (I_LOOP c) st)
                         (IH c r Rc pre rest Ec Hr)).
         intros s1 vis' E Hv. subst Rc. eapply IH; [apply HL; reflexivity | assumption].
       + destruct (typecheck_gen true c r) as [[s1|]|] eqn:Ec; try discriminate.
@@ -757,7 +824,7 @@ Section Sim.
       apply typed_or_inv in Hv as [(w & -> & Hw) | (w & -> & Hw)]; simpl; rewrite pop1_mkst, push_mkst.
       + destruct (typecheck_gen true c (a :: r)) as [Rc|] eqn:Ec; [|discriminate].
         assert (Hs' : styped (w :: rest) (a :: r)) by (constructor; assumption).
-        apply (sim_bind Rc R pre _ _ (fun s1 => ref_eval f (I_LOOP_LEFT c) s1) (fun st => py_eval f (I_LOOP_LEFT c) st)
+        apply (sim_bind Rc R pre _ _ (fun s1 => ref_eval e f (I_LOOP_LEFT c) s1) (fun st => py_eval e f (I_LOOP_LEFT c) st)
                         (IH c (a :: r) Rc pre (w :: rest) Ec Hs')).
         intros s1 vis' E Hv. subst Rc. eapply IH; [apply HL; reflexivity | assumption].
       + assert (R = Typed (b :: r)) as ->.
@@ -781,7 +848,7 @@ Section Sim.
       destruct (sty_eqb r1 r && (negb true || ty_eqb a b)) eqn:Q; [|discriminate]. injection Htc as <-.
       apply andb_prop in Q as [Q1 Q2]. apply sty_eqb_eq in Q1. simpl in Q2. apply ty_eqb_eq in Q2. subst r1 b.
       pose proof (map_sim c a a r pre Ec l rest Hl Hr) as H.
-      destruct (ref_map (ref_eval f c) (map erase l) (map erase rest)) as [ys s2|o]; simpl in H.
+      destruct (ref_map (ref_eval e f c) (map erase l) (map erase rest)) as [ys s2|o]; simpl in H.
       + destruct H as (pys & rest' & Epm & <- & <- & Tp & Tr). rewrite Epm.
         destruct pys as [|y pys]; simpl.
         * rewrite push_mkst. apply py_map_length in Epm. destruct l; [|discriminate Epm].
@@ -821,7 +888,7 @@ End Sim.
 
 Theorem simulation f : forall c s R pre vis,
   typecheck_gen true c s = Some R -> styped vis s ->
-  sim_rel R pre (ref_eval f c (map erase vis)) (py_eval f c (mkst pre vis)).
+  sim_rel R pre (ref_eval e f c (map erase vis)) (py_eval e f c (mkst pre vis)).
 Proof.
   induction f as [|f IHf]; intros c s R pre vis Htc Hs.
   - reflexivity.
@@ -845,10 +912,10 @@ Definition stack_typed (vs : list pval) (s : sty) : Prop := Forall2 (fun v t => 
 
 Lemma c01_simulation fuel code st R hid inputs :
   in_fragment code -> typecheck_nr code st = Some R -> stack_typed inputs st ->
-  erase_outcome (py_eval fuel code (mkst hid inputs)) = ref_eval fuel code (map erase inputs).
+  erase_outcome (py_eval e fuel code (mkst hid inputs)) = ref_eval e fuel code (map erase inputs).
 Proof.
   intros _ Htc Hs. pose proof (simulation fuel code st R hid inputs Htc Hs) as H.
-  destruct (ref_eval fuel code (map erase inputs)); simpl in H.
+  destruct (ref_eval e fuel code (map erase inputs)); simpl in H.
   - destruct H as (vis' & -> & <- & _). simpl. rewrite view_mkst. reflexivity.
   - destruct H as (pv & -> & <-). reflexivity.
   - rewrite H. reflexivity.
@@ -858,11 +925,11 @@ Qed.
 
 Lemma c01_frame fuel code st R hid inputs stf :
   in_fragment code -> typecheck_nr code st = Some R -> stack_typed inputs st ->
-  py_eval fuel code (mkst hid inputs) = PDone stf ->
+  py_eval e fuel code (mkst hid inputs) = PDone stf ->
   hidden stf = hid /\ prot stf = length hid /\ exists st', R = Typed st' /\ stack_typed (view stf) st'.
 Proof.
   intros _ Htc Hs E. pose proof (simulation fuel code st R hid inputs Htc Hs) as H. rewrite E in H.
-  destruct (ref_eval fuel code (map erase inputs)); simpl in H.
+  destruct (ref_eval e fuel code (map erase inputs)); simpl in H.
   - destruct H as (vis' & Q & _ & T). injection Q as ->. rewrite hidden_mkst, view_mkst. repeat split; auto.
     destruct R; [eauto | contradiction].
   - destruct H as (pv & Q & _). discriminate.
@@ -873,14 +940,14 @@ Qed.
 
 Lemma c01_ref_progress fuel code st R inputs :
   in_fragment code -> typecheck_nr code st = Some R -> stack_typed inputs st ->
-  ref_eval fuel code (map erase inputs) <> Stuck.
+  ref_eval e fuel code (map erase inputs) <> Stuck.
 Proof.
   intros _ Htc Hs C. pose proof (simulation fuel code st R [] inputs Htc Hs) as H. rewrite C in H. exact H.
 Qed.
 
 Lemma c01_failing_never_returns fuel code st hid inputs stf :
   in_fragment code -> typecheck_nr code st = Some Failing -> stack_typed inputs st ->
-  py_eval fuel code (mkst hid inputs) <> PDone stf.
+  py_eval e fuel code (mkst hid inputs) <> PDone stf.
 Proof.
   intros F Htc Hs E. destruct (c01_frame fuel code st Failing hid inputs stf F Htc Hs E) as (_ & _ & st' & Q & _).
   discriminate.
@@ -888,7 +955,7 @@ Qed.
 
 Lemma c02_preservation fuel code st st' hid inputs stf :
   in_fragment code -> typecheck_nr code st = Some (Typed st') -> stack_typed inputs st ->
-  py_eval fuel code (mkst hid inputs) = PDone stf ->
+  py_eval e fuel code (mkst hid inputs) = PDone stf ->
   Forall2 (fun v t => rt_type v = t) (view stf) st'.
 Proof.
   intros F Htc Hs E. destruct (c01_frame fuel code st _ hid inputs stf F Htc Hs E) as (_ & _ & st'' & Q & T).
@@ -933,7 +1000,7 @@ Qed.
 (* (a) stated on an arbitrary stack whose counter does not exceed its length *)
 Lemma shuffle_refines_st fuel i st :
   prot st <= length (items st) -> is_shuffle i = true -> (shuffle i (view st) <> None \/ prot st = 0) ->
-  py_eval (S fuel) i st =
+  py_eval e (S fuel) i st =
     match shuffle i (view st) with Some v' => PDone (mkst (hidden st) v') | None => PError end.
 Proof.
   intros W Hs Hr. rewrite (mkst_hidden_view st W) at 1. apply shuffle_refines; [assumption|].
@@ -941,17 +1008,85 @@ Proof.
 Qed.
 
 Lemma ref_shuffle i s : is_shuffle i = true -> forall fuel,
-  ref_eval (S fuel) i s = match shuffle i s with Some s' => Done s' | None => Stuck end.
+  ref_eval e (S fuel) i s = match shuffle i s with Some s' => Done s' | None => Stuck end.
 Proof. intros H fuel. destruct i; try discriminate H; reflexivity. Qed.
 
 Lemma dip_refines fuel n c st out :
   prot st <= length (items st) -> n <= length (view st) ->
-  py_eval fuel c (mkst (hidden st ++ firstn n (view st)) (skipn n (view st)))
+  py_eval e fuel c (mkst (hidden st ++ firstn n (view st)) (skipn n (view st)))
     = PDone (mkst (hidden st ++ firstn n (view st)) out) ->
-  py_eval (S fuel) (I_DIP n c) st = PDone (mkst (hidden st) (firstn n (view st) ++ out)).
+  py_eval e (S fuel) (I_DIP n c) st = PDone (mkst (hidden st) (firstn n (view st) ++ out)).
 Proof.
   intros W L E. rewrite (mkst_hidden_view st W) at 1. cbn [py_eval].
   rewrite <- (firstn_skipn n (view st)) at 1.
   assert (La : length (firstn n (view st)) = n) by (rewrite firstn_length; lia).
   rewrite (protect_mkst _ _ _ n La), E. rewrite <- La at 1. rewrite restore_mkst. reflexivity.
 Qed.
+
+End WithEnv.
+
+(* ------------------------------------------------------------------------------------------ *)
+(* kernel-checked witnesses of the known finding (MAP over an empty list keeps the source class). *)
+(* Each fact is one closed equation proved by vm_compute, so that Qed re-checks it with a vm cast. *)
+(* ------------------------------------------------------------------------------------------ *)
+Definition w_env : env := mkenv 0 0 [] [] [] 0 0 [].
+Definition w_code1 : instr := I_SEQ (I_MAP (I_SEQ I_INT I_NOOP)) (I_SEQ (I_PUSH TInt (DInt 1)) (I_SEQ I_CONS I_NOOP)).
+Definition w_code2 : instr := I_MAP (I_SEQ I_INT I_NOOP).
+Definition w_inputs : list pval := [PList TNat []].
+
+Lemma w_env_ok : env_okb w_env = true. Proof. vm_compute. reflexivity. Qed.
+Lemma w_frag1 : in_fragmentb w_code1 = true. Proof. vm_compute. reflexivity. Qed.
+Lemma w_frag2 : in_fragmentb w_code2 = true. Proof. vm_compute. reflexivity. Qed.
+Lemma w_tc1 : typecheck w_code1 [TList TNat] = Some (Typed [TList TInt]). Proof. vm_compute. reflexivity. Qed.
+Lemma w_tc2 : typecheck w_code2 [TList TNat] = Some (Typed [TList TInt]). Proof. vm_compute. reflexivity. Qed.
+Lemma w_inputs_typed : stack_typed w_inputs [TList TNat].
+Proof. constructor; [vm_compute; reflexivity | constructor]. Qed.
+Lemma w_ref1 : ref_eval w_env 10 w_code1 (map erase w_inputs) = Done [VList [VInt 1]]. Proof. vm_compute. reflexivity. Qed.
+Lemma w_py1 : erase_outcome (py_eval w_env 10 w_code1 (mkst [] w_inputs)) = RtError. Proof. vm_compute. reflexivity. Qed.
+Lemma w_py2 : py_eval w_env 10 w_code2 (mkst [] w_inputs) = PDone (mkst [] [PList TNat []]). Proof. vm_compute. reflexivity. Qed.
+Lemma w_view2 : view (mkst [] [PList TNat []]) = [PList TNat []]. Proof. vm_compute. reflexivity. Qed.
+
+Lemma c01_refuted : exists e fuel code st R inputs,
+  env_okb e = true /\ in_fragment code /\ typecheck code st = Some R /\ stack_typed inputs st /\
+  ref_eval e fuel code (map erase inputs) <> OutOfFuel /\
+  erase_outcome (py_eval e fuel code (mkst [] inputs)) <> ref_eval e fuel code (map erase inputs).
+Proof.
+  exists w_env, 10, w_code1, [TList TNat], (Typed [TList TInt]), w_inputs.
+  split; [exact w_env_ok|]. split; [exact w_frag1|]. split; [exact w_tc1|]. split; [exact w_inputs_typed|].
+  rewrite w_py1, w_ref1. split; discriminate.
+Qed.
+
+Lemma c02_refuted : exists e fuel code st st' inputs stf,
+  env_okb e = true /\ in_fragment code /\ typecheck code st = Some (Typed st') /\ stack_typed inputs st /\
+  py_eval e fuel code (mkst [] inputs) = PDone stf /\
+  ~ Forall2 (fun v t => rt_type v = t) (view stf) st'.
+Proof.
+  exists w_env, 10, w_code2, [TList TNat], [TList TInt], w_inputs, (mkst [] [PList TNat []]).
+  split; [exact w_env_ok|]. split; [exact w_frag2|]. split; [exact w_tc2|]. split; [exact w_inputs_typed|].
+  split; [exact w_py2|]. rewrite w_view2. intros H. inversion H as [|? ? ? ? E]. discriminate E.
+Qed.
+
+(* non-vacuity examples, each a closed boolean/equational fact *)
+Definition ex_env : env := mkenv 5 9 [] [] [] 100 3 [].
+Definition ex_code1 : instr :=
+  I_SEQ (I_PUSH (TList TNat) (DList [DInt 1; DInt 2; DInt 3]))
+  (I_SEQ (I_MAP (I_SEQ (I_DUP 1) (I_SEQ I_MUL I_NOOP)))
+  (I_SEQ (I_PUSH TNat (DInt 0)) (I_SEQ I_SWAP (I_SEQ (I_ITER (I_SEQ I_ADD I_NOOP))
+  (I_SEQ (I_DIP 1 (I_SEQ (I_DUP 2) (I_SEQ (I_DIG 1) (I_SEQ I_PAIR I_NOOP))))
+  (I_SEQ I_AMOUNT (I_SEQ I_BALANCE (I_SEQ I_SUB_MUTEZ I_NOOP)))))))).
+Lemma ex1_tc : typecheck_nr ex_code1 [TInt; TString] = Some (Typed [TOption TMutez; TNat; TPair TInt TString; TString]).
+Proof. vm_compute. reflexivity. Qed.
+Lemma ex1_ref : ref_eval ex_env 50 ex_code1 [VInt 7; VStr []] = Done [VSome (VMutez 4); VInt 14; VPair (VInt 7) (VStr []); VStr []].
+Proof. vm_compute. reflexivity. Qed.
+Lemma ex1_py : obs_of (py_eval ex_env 50 ex_code1 (mkst [] [PInt 7; PStr []]))
+  = ODone [PSome (PMutez 4); PNat 14; PPair (PInt 7) (PStr []); PStr []].
+Proof. vm_compute. reflexivity. Qed.
+
+Definition ex_code2 : instr :=
+  I_SEQ (I_MAP (I_SEQ (I_PUSH TNat (DInt 1)) (I_SEQ I_ADD I_NOOP))) (I_SEQ (I_DUP 1) (I_SEQ I_SIZE I_NOOP)).
+Lemma ex2_tc : typecheck_nr ex_code2 [TList TNat] = Some (Typed [TNat; TList TNat]).
+Proof. vm_compute. reflexivity. Qed.
+Lemma ex2_py_empty : obs_of (py_eval ex_env 20 ex_code2 (mkst [] [PList TNat []])) = ODone [PNat 0; PList TNat []].
+Proof. vm_compute. reflexivity. Qed.
+Lemma ex2_py : obs_of (py_eval ex_env 20 ex_code2 (mkst [] [PList TNat [PNat 4; PNat 0]])) = ODone [PNat 2; PList TNat [PNat 5; PNat 1]].
+Proof. vm_compute. reflexivity. Qed.
